@@ -2,17 +2,20 @@ import vlib
 
 class P(vlib.Prop):
     id = "C20"
-    watch = ("pkg/apk/apk/transport.go",)
+    watch = ("pkg/apk/apk/transport.go", "pkg/apk/apk/cache.go")
     rule = ("scripted stage: hand-picked corners (cuts at 0 / mid-read / after the last byte, three failures in one Read, resets that fail, "
             "eager EOF, restarts cut while discarding, the 416 corner, close-delimited responses closed early, error responses without a body, "
             "two faults in one Read survived), then every single-fault and a grid of double-fault scripts over a 13-byte body x 3 server kinds x 3 "
             "buffer sizes, then random scripts (body reads with chosen chunk sizes, failures, eager EOF; connection outcomes serve / dial error / 503 / "
             "backend of another kind / close-delimited response closed cleanly after n bytes; one third leaning towards the hypotheses of c20_live) run "
-            "against the real rangeRetryReader through a scripted http.RoundTripper, judged as the callers do (status 200 required); "
+            "against the real rangeRetryReader through a scripted http.RoundTripper that records every value of the Range header of every request together with the bytes handed over so far "
+            "and answers error statuses with a body of its own bytes (or none), judged as the callers do (status 200 required); "
             "http stage: APK.FetchPackage against a real HTTP server (Content-Length / chunked / close-delimited responses) that resets or cleanly "
             "closes connections after scripted byte counts, incl. after the last byte of a chunked body; "
             "index stage: fetchRepositoryIndex against the same server without a cache directory and with one (etag-keyed cache transport: HEAD, then the body streamed into a file "
-            "while the connection is cut at offset 0 / 1 / mid / last byte), every download followed by a fault-free one over the same cache directory, which must deliver the server's bytes. "
+            "while the connection is cut at offset 0 / 1 / mid / last byte / after the last chunk, the GET answered 503, close-delimited responses closed cleanly), every download followed by a fault-free one over the "
+            "same cache directory, which must deliver the server's bytes; on the cached path the cache directory is inspected after each download (content under the etag's name, temporary files no advertised "
+            "name points to) and results and directory are compared with Model/TransportCache.v. "
             "A case is non-trivial when its script contains at least one fault; distinct = distinct case terms.")
     stages = (
         dict(name="scripted", cmd="c20", args=lambda t, s: ["-stage", "scripted"]),
@@ -25,19 +28,33 @@ class P(vlib.Prop):
         "a server of kind HonoursRange answers 206 from the requested offset and 416 at/after the end; IgnoresRange answers 200 with the full body; RejectsRange answers a non-2xx status; "
         "error responses either all carry a body or none does (bare)",
         "io.CopyN/io.Discard semantics (8192-byte buffer, 'written == n' wins over an error) and net/http's http.NoBody for Content-Length: 0 are modelled by hand and checked by the correspondence",
+        "c20_range_header_is_progress / c20_refines: the server side looks at the FIRST value of the Range header (Header.Get; net/http's ServeContent and the harness's servers do); the request handed to RoundTrip carries no Range header of its own",
+        "c20_cached_download_*: the GET response carries an ETag (the harness's server sends one), reads of the local cache file do not fail, one process at a time (concurrency and crashes on this path are C19's)",
     )
     level_text = ("Safety: c20_faithful (framed responses: after every Read the bytes handed over are a prefix of the server's, EOF only when complete), c20_prefix_any_framing "
                   "(no framing assumed: never duplicated, skipped or altered), c20_resume_exact, c20_exhausted_is_error hold for every server content and kind, every script of "
                   "body-read and connection outcomes and every sequence of Read calls (unbounded). Completion: c20_live - every script accepted by the decidable accounting "
-                  "`tolerated` (per Read at most as many failing body reads as the schedule has retries, each followed by a re-connection that succeeds) ends with all bytes "
-                  "handed over, EOF and no error; the excluded corners are proved real (c20_live_416_corner_refuted, c20_live_restart_cut_refuted). Refuted: a short body is "
-                  "never EOF without framing (c20_short_body_unframed_refuted = finding C20-F1). All about an executable model of rangeRetryReader whose retry schedule is "
-                  "regenerated from transport.go on every run; the model is tied to the code by per-Read differential comparison under a scripted transport, and the verified "
-                  "validators (c20_validator_decides: Faithful, Complete) are run on what the real reader and the real FetchPackage deliver.")
-    level_note = ("trusted: Coq kernel, goextract, Go harness/printer; modelled not verified: Go text of reset/Read, net/http framing (which early ends are errors), http.NoBody, io.CopyN semantics; "
-                  "correspondence is differential testing, not proof; `tolerated` is stricter than the reader in one spot (a failing read that arrives with the last byte to discard is swallowed by io.CopyN)")
+                  "`tolerated` ends with all bytes handed over, EOF and no error; c20_live_budget says it on the script alone for the budget goextract reads from Read's schedule literal "
+                  "(Range-honouring server, at most retry_budget failing body reads in a row, none once all bytes can have been handed over); the excluded corners are proved real "
+                  "(c20_live_416_corner_refuted, c20_live_restart_cut_refuted, c20_live_budget_exceeded_refuted). Request side and error bodies: Model/TransportReq.v keeps the Range header "
+                  "as state of the Header map the request copies share, carries the bytes of error responses, explicit status codes and the callers' test of them; it is PROVED to refine the "
+                  "abstract model for every shape of the text that is shape_okb (c20_refines), so c20_code_faithful / c20_code_live hold of it; c20_range_header_is_progress (every request carries "
+                  "exactly bytes=<progress>-, one value, none at 0) and c20_error_body_never_delivered (r.body never is the body of a non-200/206 response when a Read returns); both are facts about "
+                  "the text - Set vs Add on the shared map, the order of `r.body = resp.Body` and the status test, the Close after a failed reset - which goextract reads on every run "
+                  "(Generated/TransportShape.v, c20_text_as_modelled) and whose wrong variants are refuted in the model (c20_range_header_appended_refuted, c20_error_body_early_install_refuted). "
+                  "Cached index download: c20_cached_download_complete_or_error / _twice (for every cut of a framed response: an error, nothing advertised, no temporary file left - or exactly the "
+                  "server's bytes advertised and returned), c20_readall_complete_or_error. Refuted: a short body is never EOF without framing (c20_short_body_unframed_refuted = finding C20-F1; "
+                  "c20_cached_short_body_unframed_refuted = finding C20-F2, where the short body stays in the cache). All about executable models tied to the code by per-Read differential "
+                  "comparison under a scripted transport (Read results, every Range value of every request), by comparison of the real cache directory after real downloads, and by the verified "
+                  "validators (c20_validator_decides) run on what the real reader, FetchPackage and fetchRepositoryIndex deliver.")
+    level_note = ("trusted: Coq kernel, goextract, Go harness/printer; modelled not verified: Go text of reset/Read/retrieveAndSaveFile beyond the ten shape facts goextract reads, net/http framing (which early ends are errors), "
+                  "http.NoBody, io.CopyN / io.Copy / io.ReadAll semantics; correspondence is differential testing, not proof; `tolerated` is stricter than the reader in one spot (a failing read that arrives with the last "
+                  "byte to discard is swallowed by io.CopyN); c20_live_budget's early_faults bounds the bytes handed over from above (sum of max 1 rk), so it is stricter than `tolerated`")
     design_ref = "DESIGN.md 7 C20"
-    modelled_not_verified = ("rangeRetryReader.reset/Read are modelled by hand (Model/Transport.v); the retry schedule literal is regenerated "
-                             "from transport.go; net/http, the TCP stack and retryablehttp are exercised by the http stage only")
+    modelled_not_verified = ("rangeRetryReader.reset/Read, the callers' status test and retrieveAndSaveFile's copy-then-advertise are modelled by hand (Model/Transport.v, TransportReq.v, TransportCache.v); "
+                             "the retry schedule literal and ten yes/no facts about the text (Set/Add, shallow copy, order of body installation and status test, Close and return after a failed reset, "
+                             "callers' 200 test, copy error / temp removal / copy before advertise) are regenerated from the source on every run; rangeRetryReader.Close, r.total (assigned, never read), "
+                             "contexts, auth, the HEAD request and etag handling, singleflight, and the package-cache branch of cacheTransport.RoundTrip have no counterpart; "
+                             "net/http, the TCP stack and retryablehttp are exercised by the http and index stages only")
 
 PROP = P()
